@@ -87,106 +87,88 @@ def cursor_advance(e, cur_id):
 
 
 def check_scan(ctx, prog):
-    targets = [('asl::utf8toUtf32', 0), ('asl::utf8toUtf16', 0), ('asl::utf16toUtf8', 0), ('asl::utf32toUtf8', 0), ('asl::String::count', None)]
+    """R-SCAN by exhaustive interpretation over abstract strings (scansim): every string of byte-class representatives up
+    to the longest sequence (+1 in the thorough tier), terminated, is fed to the scanner; reading past the terminator is
+    the violation.  The enumerator step must report a length that does not step over the terminator."""
+    import scansim
+    maxlen = 5 if ctx.tier == 'thorough' else 4
+    targets = [('asl::utf8toUtf32', 8), ('asl::utf8toUtf16', 8), ('asl::utf16toUtf8', 32), ('asl::utf32toUtf8', 32), ('asl::String::count', 8)]
     n = 0
-    for name, pidx in targets:
+    for name, width in targets:
         f = fn1(prog, name)
         ctx.analysed(f)
         n += 1
-        if pidx is not None:
-            cur = f['params'][pidx]['id']
-            curname = f['params'][pidx]['n']
+        role = f['n'] + ':never reads past the terminator'
+        ptr_in = [p_ for p_ in f['params'] if T(f, p_['t']).get('ptr') and T(f, T(f, p_['t']).get('to')).get('const')]
+        ptr_out = [p_ for p_ in f['params'] if T(f, p_['t']).get('ptr') and not T(f, T(f, p_['t']).get('to')).get('const')]
+        ints = [p_ for p_ in f['params'] if T(f, p_['t']).get('int')]
+        try:
+            reps, nconds = scansim.byte_classes(prog, f, signed=True, width=width)
+        except Exception as ex:
+            ctx.undecided('R-SCAN', f['pq'], role, fwhere(f), 'byte classes not computable: %s' % ex)
+            continue
+        if width > 8:
+            reps = [r for r in reps if r <= 0x10ffff]
+            ml = 2 if len(reps) > 20 else 3
         else:
-            # the local cursor initialised from str()
-            cur = None
-            for s_ in ir.walk_stmts(f['body']):
-                if s_.get('k') == 'decl':
-                    for v in s_['vars']:
-                        if T(f, v['t']).get('ptr') and v.get('init') is not None:
-                            cur, curname = v['id'], v['n']
-                            break
-                if cur:
-                    break
-            if cur is None:
-                raise AnalysisBroken('%s: scan cursor not found' % name)
-        cfg = cfgm.CFG(f)
-        hits = []
-
-        # which variable receives the element just consumed: decl/assign whose init contains *cur++
-        def consumed_into(nd):
-            if nd.kind == 'decl' and nd.info.get('init') is not None:
-                for w in walk_expr(nd.info['init']):
-                    if cursor_advance(w, cur):
-                        return nd.info['id']
-            return None
-
-        def step(nd, st):
-            # st: ('ok',) every consumed element verified non-zero ; ('pend', var) last consumed element in var, not yet tested ;
-            #     ('blind',) advanced without keeping the element
-            if nd.kind == 'ev' and nd.e is not None and cursor_advance(nd.e, cur):
-                if st[0] != 'ok':
-                    hits.append((nd.e.get('l', 0), 'advances the cursor although the previously consumed element was not tested against the terminator'))
-                return ('blind',)
-            if nd.kind == 'decl':
-                v = consumed_into(nd)
-                if v is not None:
-                    return ('pend', v)
-            if nd.kind == 'ev' and nd.e is not None and nd.e.get('k') == 'bin' and nd.e.get('op') == '=' and st[0] == 'blind':
-                l = strip_lv(nd.e['x'])
-                if l.get('k') == 'var' and any(cursor_advance(w, cur) for w in walk_expr(nd.e['y'])):
-                    return ('pend', l['id'])
-            return st
-
-        def edge(nd, lab, st):
-            if nd.kind == 'br' and lab in (True, False) and st[0] == 'pend':
-                tz = truth_at_zero(nd.e, st[1])
-                if tz is not None and lab != tz:
-                    return ('ok',)       # this edge is only taken when the element is non-zero
-            return st
-        reached, _ = cfgm.dataflow(cfg, ('ok',), step, edge)
-        ctx.evaluations += sum(len(v) for v in reached.values())
-        role = f['n'] + ':NUL-guarded cursor `%s`' % curname
-        if hits:
-            ctx.violation('R-SCAN', f['pq'], role, fwhere(f, hits[0][0]), '%s: %s (a truncated sequence at the end of the buffer makes it read past the terminator)' % (f['q'], hits[0][1]))
+            ml = maxlen
+        bad = None
+        und = None
+        runs = 0
+        for s_ in scansim.strings(reps, ml):
+            bufs = {'IN': list(s_) + [0], 'OUT': []}
+            r = scansim.Run(prog, f, bufs, ptr_params=dict([(p_['id'], ('P', 'IN', 0)) for p_ in ptr_in[:1]] + [(p_['id'], ('P', 'OUT', 0)) for p_ in ptr_out[:1]]),
+                            int_params=dict((p_['id'], 1 << 20) for p_ in ints), call_ptrs={'str': ('P', 'IN', 0)}, growable=('OUT',))
+            runs += 1
+            try:
+                r.run()
+            except scansim.OOB as o:
+                bad = (s_, o)
+                break
+            except scansim.Unsupported as u:
+                und = (s_, u)
+                break
+        ctx.evaluations += runs
+        if bad:
+            ctx.violation('R-SCAN', f['pq'], role, fwhere(f, bad[1].line), '%s: on the input [%s] + terminator the scan performs a %s: a truncated sequence at the end of the buffer makes it read past the terminator' % (
+                f['q'], ' '.join('%02x' % (x & (0xff if width == 8 else 0xffffffff)) for x in bad[0]), bad[1]))
+        elif und:
+            ctx.undecided('R-SCAN', f['pq'], role, fwhere(f), 'outside the interpreted fragment on input [%s]: %s' % (' '.join('%02x' % (x & 0xff) for x in und[0]), und[1]))
         else:
-            ctx.ok('R-SCAN', f['pq'], role, fwhere(f), 'every consumed element is tested against the terminator before the next advance')
-    # code-point enumerator: n <= 1 + bytes verified
+            ctx.ok('R-SCAN', f['pq'], role, fwhere(f), '%d abstract strings (length <= %d over %d element classes from %d conditions): no read past the terminator' % (runs, ml, len(reps), nconds))
+    # code-point enumerator: operator* must not report a length that steps over the terminator
     f = fn1(prog, 'asl::String::Enumerator::operator*')
     ctx.analysed(f)
     n += 1
-    cfg = cfgm.CFG(f)
-    bad = []
-    idxvar = {}
-    for s_ in ir.walk_stmts(f['body']):
-        if s_.get('k') == 'decl':
-            for v in s_['vars']:
-                ini = strip(v.get('init') or {})
-                if ini.get('k') == 'idx' and strip(ini['b']).get('f') == 'u' and const_val(ini['i']) is not None:
-                    idxvar[v['id']] = const_val(ini['i'])
-
-    def step2(nd, st):
-        nval, verified = st
-        if nd.kind == 'ev' and nd.e is not None and nd.e.get('k') == 'bin' and nd.e.get('op') == '=' and strip_lv(nd.e['x']).get('f') == 'n':
-            v = const_val(nd.e['y'])
-            return (v if v is not None else 99, verified)
-        if nd.kind == 'ret':
-            if nval is None or nval > 1 + verified:
-                bad.append((nd.line, nval, verified))
-        return st
-
-    def edge2(nd, lab, st):
-        nval, verified = st
-        if nd.kind == 'br' and lab in (True, False):
-            for vid, idx in idxvar.items():
-                tz = truth_at_zero(nd.e, vid)
-                if tz is not None and lab != tz and idx == verified + 1:
-                    return (nval, idx)
-        return st
-    reached, _ = cfgm.dataflow(cfg, (None, 0), step2, edge2)
-    ctx.evaluations += sum(len(v) for v in reached.values())
-    ctx.check(not bad, 'R-SCAN', f['pq'], 'operator*:reported length within verified bytes', fwhere(f, bad[0][0] if bad else None),
-              'at every return n <= 1 + number of following bytes tested non-zero',
-              'Enumerator::operator* returns with n=%s after verifying only %s following byte(s): operator++ then steps over the terminator' % (bad[0][1:] if bad else ('', '')))
+    role = 'operator*:reported length within verified bytes'
+    reps, nconds = scansim.byte_classes(prog, f, signed=True)
+    bad = und = None
+    runs = 0
+    for s_ in scansim.strings(reps, 4):
+        if not s_:
+            continue
+        bufs = {'IN': list(s_) + [0]}
+        r = scansim.Run(prog, f, bufs, mem_ptrs={'u': ('P', 'IN', 0)}, mems={'n': 0})
+        runs += 1
+        try:
+            r.run()
+        except scansim.OOB as o:
+            bad = (s_, 'reads past the terminator: %s' % o)
+            break
+        except scansim.Unsupported as u:
+            und = (s_, u)
+            break
+        nv = r.mems.get('n')
+        if not isinstance(nv, int) or nv < 1 or nv > len(s_):
+            bad = (s_, 'sets n=%s although only %d byte(s) precede the terminator: operator++ then steps over the terminator' % (nv, len(s_)))
+            break
+    ctx.evaluations += runs
+    if bad:
+        ctx.violation('R-SCAN', f['pq'], role, fwhere(f), 'Enumerator::operator* on [%s] + terminator %s' % (' '.join('%02x' % (x & 0xff) for x in bad[0]), bad[1]))
+    elif und:
+        ctx.undecided('R-SCAN', f['pq'], role, fwhere(f), 'outside the interpreted fragment: %s' % (und[1],))
+    else:
+        ctx.ok('R-SCAN', f['pq'], role, fwhere(f), '%d abstract strings: 1 <= n <= bytes before the terminator, no read past it' % runs)
     inc = fn1(prog, 'asl::String::Enumerator::operator++')
     adv = [e for e in fn_exprs(inc) if e.get('k') == 'bin' and e.get('op') == '+=' and strip_lv(e['x']).get('f') == 'u' and strip(e['y']).get('f') == 'n']
     ctx.check(len(adv) == 1, 'R-SCAN', inc['pq'], 'operator++:advances by n', fwhere(inc), 'u += n', 'Enumerator::operator++ does not advance by exactly the length computed by operator*')
